@@ -114,6 +114,29 @@ def check_nodes(df, date, chosen, rounding, pairs, stats=None):
             d = diffs[0]
             fails.append(core.Failure(f"value:{tag}->{d['column']}" if len(diffs) else "",
                                       f"{date}: supplying {grp} changes {d['column']} ({d}); {len(diffs)} node(s) differ"))
+        # the warning must also come when n is the *only* overriding column: repeat with the minimal
+        # data set for one consumer of n
+        if len(grp) == 1 and grp[0] in functions and grp[0] in dag:
+            n = grp[0]
+            consumers = sorted(dag.successors(n))
+            if consumers:
+                c = consumers[len(df) % len(consumers)]
+                try:
+                    mdag, _, _ = env.build_dag(functions, [c], list(df.columns) + [n])
+                    need = [r for r in mdag.nodes if mdag.in_degree(r) == 0 and r in df.columns]
+                    data_min = df[sorted(set(need) | {"p_id"})].copy()
+                    data_min[n] = base[n].to_numpy()
+                    params = env.policy_env(date)[0]
+                    with warnings.catch_warnings(record=True) as w:
+                        warnings.simplefilter("always")
+                        compute_taxes_and_transfers(data=data_min, params=params, functions=functions, targets=[c], rounding=rounding)
+                    ov = [str(x.message) for x in w if issubclass(x.category, FunctionsAndColumnsOverlapWarning)]
+                    if not any(n in m for m in ov):
+                        fails.append(core.Failure(f"no-warning-minimal:{n}", f"{date}: with the minimal data for target {c}, column {n} overrides a rule but no FunctionsAndColumnsOverlapWarning names it"))
+                    if stats is not None:
+                        stats.append(("minimal:" + n, True, False))
+                except Exception:  # noqa: BLE001
+                    pass
         if stats is not None:
             for n in grp:
                 desc = n in dag and any(True for _ in nx.descendants(dag, n))
